@@ -435,6 +435,26 @@ def check_concat(sp, col):
         if len(res.thetas) > res.n_thetas:
             bad(f"{how}|size", f"the result declares {res.n_thetas} samples but holds {len(res.thetas)}")
         col.outcome("concat", how, typ, lengths, slack, [id(g) == id(w) for g, w in zip(got, want)])
+        # ... and, being a collection, it refuses to grow beyond what it declares: fill it up to its own declared size
+        # (at most the inputs' total slack, whatever it declares), then one sample more must be refused
+        if not any(res is h for h in holders) and len(res.thetas) <= res.n_thetas <= len(want) + 64:
+            declared = res.n_thetas
+            for _ in range(declared - len(res.thetas)):
+                res.add_theta(want[0])
+            col.evaluations += 1
+            col.transitions += 1
+            try:
+                res.add_theta(want[-1])
+            except Exception:  # noqa: BLE001
+                col.refused += 1
+                col.outcome("concat", how, "add_theta(full result)", "raised")
+                if len(res.thetas) != declared:
+                    bad(f"{how}|result-grew", f"after the refused add the result holds {len(res.thetas)} samples, it declares {declared}")
+            else:
+                col.outcome("concat", how, "add_theta(full result)", "returned")
+                bad(f"{how}|result-grew", f"the result of {how} declares {declared} samples, holds {declared} and accepted one more")
+            if [list(h.thetas) for h in holders] != before:
+                bad(f"{how}|inputs", f"adding to the result of {how} changed its input collections")
     if len(lengths) >= 2:
         col.nontriv("concat", typ, lengths, slack)
 
